@@ -32,7 +32,8 @@ THOROUGH_METRICS = ["euclidean", "manhattan", "log_squared_euclidean", "chebyshe
 
 def bounds(tier):
     b = {"pre_computed": ["WO(3) x L(3)", "WO(4) x L(4)", "G(4,3,zero) x L(4)",
-                          "G(5,2) x L(5)"],
+                          "G(5,2) x L(5)", "G(4,3,zero) and G(5,2) again through a non-identity "
+                          "index array into a larger matrix with decoy rows"],
          "features": ["P(4, {0,1,2}^2) x L(4) x %s" % QUICK_METRICS,
                       "P(5, {0..3}) x L(5) x ['log_squared_euclidean']"]}
     if tier == "thorough":
@@ -50,6 +51,11 @@ def plan(tier, seed):
         shards.append(("g", 4, 3, True, a, b))
     for a, b in E.chunks(E.n_graphs(5, 2), 64):
         shards.append(("g", 5, 2, False, a, b))
+    # the same graphs addressed through a non-identity index array into a larger matrix
+    for a, b in E.chunks(E.n_graphs(4, 3), 250):
+        shards.append(("ge", 4, 3, True, a, b))
+    for a, b in E.chunks(E.n_graphs(5, 2), 128):
+        shards.append(("ge", 5, 2, False, a, b))
     metrics4 = QUICK_METRICS if tier == "quick" else THOROUGH_METRICS
     metrics5 = ["log_squared_euclidean"] if tier == "quick" else THOROUGH_METRICS
     for mt in metrics4:
@@ -100,6 +106,16 @@ def programs(shard, seed):
             for lab in labs:
                 yield {"model": "SupervisedOPF", "mode": "pre", "W": W,
                        "labels": list(E.rename_classes(lab, seed))}
+    elif kind == "ge":
+        _, n, m, zero, a, b = shard
+        table = E.value_table(seed, m, zero=zero)
+        labs = E.labelings(n)
+        I = embedding(n, seed)
+        for gi in range(a, b):
+            W = embed(E.matrix_from_ranks(n, E.graph_ranks(n, m, gi), table), I, table)
+            for lab in labs:
+                yield {"model": "SupervisedOPF", "mode": "pre", "W": W, "I_train": I,
+                       "labels": list(E.rename_classes(lab, seed))}
     else:
         _, lk, n, metric, a, b = shard
         pts = E.lattice(lk, seed)
@@ -112,11 +128,35 @@ def programs(shard, seed):
                        "metric": metric, "labels": list(E.rename_classes(lab, seed))}
 
 
-def run_case(prog, res=None):
+def embedding(n, seed):
+    """A non-identity injection of positions 0..n-1 into the rows of an (n+2)-row matrix."""
+    I = list(range(n + 1, 1, -1))          # n+1, n, ..., 2  (rows 0 and 1 are decoys)
+    if seed:
+        import random
+        I = random.Random(99 + seed).sample(range(n + 2), n)
+        if I == list(range(n)):
+            I.reverse()
+    return I
+
+
+def embed(W, I, table):
+    """(n+2)x(n+2) matrix whose rows/columns I carry W; decoy rows carry weights that
+    would change the forest if they were read (smaller than every real weight but one)."""
+    import numpy as np
+    n = len(I)
+    big = np.full((n + 2, n + 2), float(table[0]) * 0.5 + 0.125)
+    np.fill_diagonal(big, 0.0)
+    for a in range(n):
+        for b in range(n):
+            big[I[a], I[b]] = W[a][b]
+    return big.tolist()
+
+
+def run_case(prog, res=None, model=None):
     """Execute one literal program on the real code; returns a violation dict
     or None."""
     try:
-        m, Wd = sup.fit_program(prog)
+        m, Wd = sup.fit_program(prog, model=model)
         obs = sup.observe(m)
     except Horizon:
         raise
@@ -158,6 +198,13 @@ def viol(prog, prob, sym, obs=None):
             "explanation": prob, "fingerprint": "SupervisedOPF.fit: " + sym}
 
 
+_PREV = {}
+
+
+def _key(prog):
+    return sup.cache_key(prog) if prog["model"] in ("SupervisedOPF", "SemiSupervisedOPF") else None
+
+
 def run(shard, seed):
     res = Result()
     k = 0
@@ -175,9 +222,13 @@ def run(shard, seed):
             res.sample(prog, 1)
         k += 1
         if v:
+            prev = _PREV.get(_key(prog))
+            if prev is not None and "previous" not in v["program"]:
+                v["program"] = dict(v["program"], previous=prev)
             res.violations.append(v)
             if res.full:
                 break
+        _PREV[_key(prog)] = prog
     # start-state variation: a fresh object gives the same forest as a used one
     if not res.full:
         last = None
@@ -195,4 +246,4 @@ def run(shard, seed):
 
 
 def replay(case):
-    return run_case(case["program"])
+    return sup.replay_with_history(run_case, case["program"])
